@@ -44,7 +44,7 @@ type Step struct {
 
 func (s Step) String() string {
 	switch s.Op {
-	case "put", "pput":
+	case "put", "pput", "putx":
 		return fmt.Sprintf("%s(%s=%s)", s.Op, s.Key, s.Val)
 	case "listpage":
 		return fmt.Sprintf("listpage(%s,after=%q,limit=%d)", s.Key, s.After, s.Limit)
@@ -66,6 +66,16 @@ func BeginRO() Step                { return Step{Op: "beginro"} }
 func Get(k string) Step            { return Step{Op: "get", Key: k} }
 func Put(k, v string) Step         { return Step{Op: "put", Key: k, Val: v} }
 func Del(k string) Step            { return Step{Op: "del", Key: k} }
+
+// PutX is a put issued with a request context that is already cancelled (a client
+// that went away): the call may fail or succeed, but a call that FAILED must have no
+// effect when the transaction is committed afterwards.
+func PutX(k, v string) Step { return Step{Op: "putx", Key: k, Val: v} }
+
+// CancelPutter is implemented by the stacks' adapters: Put with a cancelled context.
+type CancelPutter interface {
+	PutCancelled(k string, v []byte) error
+}
 func List(p string) Step           { return Step{Op: "list", Key: p} }
 func ListPage(p, a string, l int) Step { return Step{Op: "listpage", Key: p, After: a, Limit: l} }
 func Commit() Step                 { return Step{Op: "commit"} }
@@ -107,6 +117,10 @@ func Templates() []Program {
 		P("lp(d/,,3)lp(d/,,1)w(b)", Begin(), ListPage("d/", "", 3), ListPage("d/", "", 1), Put("b", "16"), Commit()),
 		P("lp(d/,,1)lp(d/,,3)w(b)", Begin(), ListPage("d/", "", 1), ListPage("d/", "", 3), Put("b", "17"), Commit()),
 		P("l(d/)lp(d/,,1)w(b)", Begin(), List("d/"), ListPage("d/", "", 1), Put("b", "18"), Commit()),
+		// a write that fails inside the transaction (cancelled request context), followed by
+		// a commit: the failed write must not become visible
+		P("putx(a)w(b)", Begin(), PutX("a", "19"), Put("b", "24"), Commit()),
+		P("r(a)putx(a)w(b)", Begin(), Get("a"), PutX("a", "25"), Put("b", "26"), Commit()),
 		P("pput(a)", PPut("a", "20")),
 		P("pdel(a)", PDel("a")),
 		P("pput(d/y)", PPut("d/y", "21")),
@@ -189,7 +203,7 @@ func replayAt(S map[string]string, obs []Obs) string {
 			continue
 		}
 		switch o.Step.Op {
-		case "put":
+		case "put", "putx":
 			cur[o.Step.Key] = o.Step.Val
 		case "del":
 			delete(cur, o.Step.Key)
@@ -300,7 +314,7 @@ func (c *Checker) OnComplete(p int, st Step, o Obs) *Violation {
 		}
 		t.obs = append(t.obs, o)
 		// read-your-writes / snapshot consistency is judged at finish time
-	case "put", "del":
+	case "put", "del", "putx":
 		if t.finished {
 			if o.Err != "finished" {
 				return &Violation{"finished-tx-usable", fmt.Sprintf("%s on a finished transaction returned err=%q", st, o.Err)}
@@ -311,6 +325,12 @@ func (c *Checker) OnComplete(p int, st Step, o Obs) *Violation {
 			if o.Err != "readonly" {
 				return &Violation{"readonly-tx-accepts-write", fmt.Sprintf("%s on a read-only transaction returned err=%q", st, o.Err)}
 			}
+			return nil
+		}
+		if o.Err != "" && st.Op == "putx" {
+			// refused: recorded with its error, so it contributes nothing to the
+			// transaction's writes (observations with an error are skipped everywhere)
+			t.obs = append(t.obs, o)
 			return nil
 		}
 		if o.Err != "" {
@@ -348,7 +368,10 @@ func (c *Checker) OnComplete(p int, st Step, o Obs) *Violation {
 			}
 			n := clone(c.cur())
 			for _, ob := range t.obs {
-				if ob.Step.Op == "put" {
+				if ob.Err != "" {
+					continue // a refused write has no effect
+				}
+				if ob.Step.Op == "put" || ob.Step.Op == "putx" {
 					n[ob.Step.Key] = ob.Step.Val
 				} else if ob.Step.Op == "del" {
 					delete(n, ob.Step.Key)
@@ -438,6 +461,12 @@ func Exec(b Backend, t *Tx, st Step) Obs {
 		var v []byte
 		v, o.Found, err = kv.Get(st.Key)
 		o.Val = string(v)
+	case "putx":
+		if cp, ok := kv.(CancelPutter); ok {
+			err = cp.PutCancelled(st.Key, []byte(st.Val))
+		} else {
+			err = kv.Put(st.Key, []byte(st.Val))
+		}
 	case "put", "pput":
 		err = kv.Put(st.Key, []byte(st.Val))
 	case "del", "pdel":
